@@ -600,6 +600,51 @@ def assert_effects(prog, f):
     return out, n
 
 
+def valist_uses(f):
+    """[(call, va_list name)] for calls that hand a va_list on after an earlier call already walked it on some path, with no va_end +
+    va_start (or va_copy into it) in between; and the number of hand-overs looked at.  A may-analysis over {fresh, used}: C leaves
+    the value of a va_list indeterminate once another function has applied va_arg to it."""
+    lists = set()
+    for c in f.calls(("__builtin_va_start",)):
+        t = norm(c.arg(0)) if c.args else None
+        while t is not None and t[0] in ("cast", "&") and len(t) > 1:
+            t = t[-1]
+        if t is not None and t[0] == "v" and len(t) > 2:
+            lists.add(t[2])
+    if not lists:
+        return [], 0
+
+    def lid(a):
+        t = norm(a) if a is not None else None
+        while t is not None and t[0] in ("cast", "&") and len(t) > 1:
+            t = t[-1]
+        return t[2] if t is not None and t[0] == "v" and len(t) > 2 and t[2] in lists else None
+
+    def tr(st, e):
+        if e.cls != "CallExpr" or not e.callee:
+            return st
+        if e.callee in ("__builtin_va_start", "__builtin_va_copy"):
+            i = lid(e.arg(0)) if e.args else None
+            return frozenset(x for x in st if x != i) if i is not None else st
+        if e.callee == "__builtin_va_end":
+            return st
+        add = [lid(a) for a in e.args]
+        return st | frozenset(i for i in add if i is not None)
+    sv = Solver(f, frozenset(), tr, None, lambda a, b: a | b).run()
+    out, n = [], [0]
+
+    def visit(e, st):
+        if e.cls == "CallExpr" and e.callee and not e.callee.startswith("__builtin_va_"):
+            for a in e.args:
+                i = lid(a)
+                if i is not None:
+                    n[0] += 1
+                    if i in st:
+                        out.append((e, norm(a)))
+    sv.visit(visit)
+    return out, n[0]
+
+
 def imalloc_tests(f):
     """[call] for `imalloc(n, size)` results taken for a failed allocation without regard to n: imalloc answers NULL for n == 0 by
     design, so a NULL is a failure only where n > 0 is known (the IMALLOC macro tests both)."""
@@ -689,6 +734,17 @@ def apply(rep, pid, files, tier):
                                 "for zero records by design", function=f.name, construct="imalloc-zero")
                     if not bad:
                         rep.ok("IMALLOC-zero", "%s: NULL from imalloc is a failure only for a non-zero count" % f.name, f.loc, "%d tests" % ni)
+            # VALIST (no reference needed)
+            if f.file == up or f.file in files:
+                bad, nv = valist_uses(f)
+                if nv:
+                    n += 1
+                    for c, t in bad:
+                        rep.bad("VALIST", "%s: `%s`" % (f.name, c.text[:50]), c.where,
+                                "this call walks a va_list that an earlier call on some path has already walked, with no va_start or va_copy in between: "
+                                "the arguments it formats are whatever lies beyond the real ones", function=f.name, construct="valist-reuse")
+                    if not bad:
+                        rep.ok("VALIST", "%s: every hand-over of a va_list is of a fresh one" % f.name, f.loc, "%d hand-overs" % nv)
             # ALLOCSIZE (no reference needed)
             if f.file == up or f.file in files:
                 bad, na = alloc_sizes(f)
